@@ -135,7 +135,8 @@ def check(run: Run) -> None:
         run.notes["fill_loop_paths"] = len(paths)
         run.check(not bad and not other_w and len(paths) >= 2, "C07.R1", fd, lp, "every parameter visited adds exactly one positional argument (or raises)", f"{len(bad)} loop-body path(s) add {sorted(set(bad))} arguments for one parameter: the next parameter visited is no longer the next open slot")
         # nothing in the loop may skip a parameter that is visited
-        run.check(not any(isinstance(x, (ast.Continue, ast.Break)) for x in ast.walk(lp)), "C07.R1", fd, lp, "no visited parameter is skipped", "the filling loop skips or stops at some parameter although its slot is open")
+        skips_ = [x for x in ast.walk(lp) if isinstance(x, (ast.Continue, ast.Break)) and not (isinstance(x, ast.Continue) and any(_variadic_fact(a, pol) is True for a, pol in Facts(fa, x).atoms))]
+        run.check(not skips_, "C07.R1", fd, skips_[0] if skips_ else lp, "no visited parameter is skipped (*args / **kwargs apart)", "the filling loop skips or stops at some parameter although its slot is open")
         slot_tests = None
     if slot_tests is not None and not slot_tests:
         raise AnalysisError("the filling loop of _fill_in_default_arguments has no test of the form len(<positional arguments>) <= <slot index> that this rule can read (the arguments may be kept in an object that is handed to other functions)")
@@ -173,7 +174,7 @@ def check(run: Run) -> None:
                     is_self = any(_self_fact(a, pol) is True for a, pol in facts)
                     non_self = any(_self_fact(a, pol) is False for a, pol in facts)
                     cnt = sum(1 for x in pth if any(x is i_ for i_ in inc_nodes))
-                    want = 0 if is_self and not non_self else 1
+                    want = 0 if (is_self and not non_self) or any(_variadic_fact(a, pol) is True for a, pol in facts) else 1
                     if cnt != want:
                         bad.append((cnt, want))
                 run.notes["fill_loop_paths"] = len(paths)
@@ -210,6 +211,11 @@ def check(run: Run) -> None:
     raises = [n for n in ast.walk(lp) if isinstance(n, ast.Raise)]
     ok_r = len(raises) == 1 and isinstance(raises[0].exc, ast.Call) and ast.unparse(raises[0].exc.func) == "ValueError"
     run.check(ok_r, "C07.R2", fd, raises[0] if raises else lp, "a missing required argument raises ValueError", "omitting a parameter that has no default does not raise ValueError")
+    # (R14, D59) *args / **kwargs are never "required": python accepts the call that leaves them out
+    run.rule("C07.R14", "the refusal 'argument is required' is not reached for a *args / **kwargs parameter of the declaration (a call python accepts)")
+    for r_ in raises:
+        spared = any(_variadic_fact(a, pol) is False for a, pol in Facts(fa, r_).atoms) or contains(loop_it0, lambda s_: s_[0] == "attr" and s_[2] == "kind")
+        run.check(spared, "C07.R14", fd, r_, "variadic parameters are passed over before a value is demanded", "every parameter of the signature without a default is demanded, *args and **kwargs included: a method declared va(self, a=1, *rest) can not be called as t.va() ('Argument rest is required') although python accepts the call", "if param.kind in (param.VAR_POSITIONAL, param.VAR_KEYWORD): continue", key="variadic parameter demanded as a required argument")
     # appends into the positional array
     apps = [c for c in ast.walk(lp) if isinstance(c, ast.Call) and isinstance(c.func, ast.Attribute) and c.func.attr == "append"]
     app_alts = []
@@ -448,6 +454,71 @@ def check(run: Run) -> None:
     from .c01 import check_plumbing as _plumb
 
     _plumb(_Rl(run, "C07.R12"), m)
+    check_keyword_operands(run, m, used_visitor(m, tctx, m.find_func("remap_by_types", in_module=mod), True), "C07.R13")
+
+
+def check_keyword_operands(run: Run, m, tt, rule: str) -> None:
+    """A stream operator inside a lambda may be given its lambda by keyword (e.Jets().Select(f=lambda j: ..)): python
+    accepts the call, so the arguments have to come out as written and the lambda has to be followed (D58). Two places
+    decide on the *positional* arguments of the call; both must look at the keywords as well:
+      (a) the operator of the collection class is called without arguments only when the call has no keyword either
+          (else: TypeError, missing 1 required positional argument);
+      (b) the search for a lambda among the arguments, which decides whether the annotation alone types the call."""
+    from ..lib import view
+
+    run.rule(rule, "a lambda given by keyword to a stream operator inside a lambda is seen: the no-argument call of the operator and the search for lambda arguments both consider the call's keywords")
+    so = tt.methods.get("process_method_call_on_stream_obj")
+    pm = tt.methods.get("process_method_call")
+    if so is None or pm is None:
+        raise AnalysisError("anchor vanished: type_transformer.process_method_call_on_stream_obj / process_method_call")
+    so = view(m, so)
+    fa = TermCtx(m, max_depth=1).analysis(so)
+    # the bound operator: <name> = getattr(<collection object>, <method name>, ..)
+    bound = {n.targets[0].id for n in own_nodes(so) if isinstance(n, ast.Assign) and len(n.targets) == 1 and isinstance(n.targets[0], ast.Name) and isinstance(n.value, ast.Call) and isinstance(n.value.func, ast.Name) and n.value.func.id == "getattr"}
+    calls = [c for c in own_nodes(so) if isinstance(c, ast.Call) and ((isinstance(c.func, ast.Name) and c.func.id in bound) or (isinstance(c.func, ast.Call) and isinstance(c.func.func, ast.Name) and c.func.func.id == "getattr")) and fa.cfg.has_node(c)]
+    run.floor(rule, len(calls), 1, "calls of the collection class's operator in process_method_call_on_stream_obj")
+    bare = [c for c in calls if not c.args and not c.keywords]
+    for c in bare:
+        knows = any(any(isinstance(x, ast.Attribute) and x.attr == "keywords" for x in ast.walk(a)) for a, _pol in Facts(fa, c).atoms)
+        run.check(knows, rule, so, stmt_of(c), "the operator is called without arguments only when the call site has no keyword argument", "the collection class's operator is called with no arguments whenever the call site has no *positional* argument: e.Jets().Select(f=lambda j: j.pt()) dies with TypeError (missing 1 required positional argument) instead of keeping the arguments as written", "if len(call_node.args) + len(call_node.keywords) == 0: r = call_method()", key="keyword operand of a nested stream operator dropped")
+    pm = view(m, pm)
+    n = 0
+    for st in own_nodes(pm):
+        if not isinstance(st, (ast.Assign, ast.If, ast.Return, ast.Expr, ast.AnnAssign)):
+            continue
+        tests = [c for c in ast.walk(st.value if isinstance(st, (ast.Assign, ast.AnnAssign, ast.Return, ast.Expr)) and st.value is not None else getattr(st, "test", st)) if isinstance(c, ast.Call) and isinstance(c.func, ast.Name) and c.func.id == "isinstance" and len(c.args) == 2 and ast.unparse(c.args[1]).endswith("Lambda")]
+        if not tests:
+            continue
+        host = st.value if isinstance(st, (ast.Assign, ast.AnnAssign, ast.Return, ast.Expr)) else st.test
+        attrs = {x.attr for x in ast.walk(host) if isinstance(x, ast.Attribute)}
+        if "args" not in attrs:
+            continue
+        # only the search that decides `full_type_resolution` (another one merely words a warning)
+        names = {t.id for t in getattr(st, "targets", []) if isinstance(t, ast.Name)}
+        feeds = any(isinstance(k, ast.keyword) and k.arg == "full_type_resolution" and (any(isinstance(x, ast.Name) and x.id in names for x in ast.walk(k.value)) or any(x is tests[0] for x in ast.walk(k.value))) for k in ast.walk(pm.node))
+        if not feeds:
+            continue
+        n += 1
+        run.check("keywords" in attrs, rule, pm, st, "the search for a lambda argument covers keyword values", "only the positional arguments of the call are searched for a lambda: with e.Jets().Where(filter=lambda j: ..) the annotation of Where alone is taken as the full answer, the filter is never followed (calls in it keep their omitted parameters) and what comes after it is typed from ObjectStream[Jet] instead of Iterable[Jet] (Count() -> Any)", "any(isinstance(a, ast.Lambda) for a in node.args + [kw.value for kw in node.keywords])", key="keyword lambda not counted as a lambda argument")
+    run.floor(rule, n, 1, "searches for a lambda among a call's arguments in process_method_call")
+
+
+def _variadic_fact(a: ast.AST, pol: bool):
+    """True: this path is for a `*args` / `**kwargs` parameter; False: for another kind; None: unrelated."""
+    if isinstance(a, ast.Compare) and len(a.ops) == 1 and isinstance(a.left, ast.Attribute) and a.left.attr == "kind":
+        c0 = a.comparators[0]
+        names = [x.attr if isinstance(x, ast.Attribute) else getattr(x, "id", None) for x in (c0.elts if isinstance(c0, (ast.Tuple, ast.List, ast.Set)) else [c0])]
+        if names and all(n_ in ("VAR_POSITIONAL", "VAR_KEYWORD") for n_ in names):
+            if isinstance(a.ops[0], (ast.In, ast.Eq, ast.Is)):
+                return pol
+            if isinstance(a.ops[0], (ast.NotIn, ast.NotEq, ast.IsNot)):
+                return not pol
+        if names and all(n_ in ("POSITIONAL_ONLY", "POSITIONAL_OR_KEYWORD", "KEYWORD_ONLY") for n_ in names) and {"POSITIONAL_ONLY", "POSITIONAL_OR_KEYWORD", "KEYWORD_ONLY"} <= set(names):
+            if isinstance(a.ops[0], ast.In):
+                return not pol
+            if isinstance(a.ops[0], ast.NotIn):
+                return pol
+    return None
 
 
 def _self_fact(a: ast.AST, pol: bool):
